@@ -243,4 +243,73 @@ def k3(ctx, kr):
     kr.bounds = 'stages::semantic with every rule_*::apply replaced by a nondeterministic Ok/Err stub; first 400 outcome combinations of the rules explored (each rule failing alone and in combination)'
     kr.stubs = ['rule_*::apply -> arbitrary Ok / Err([diagnostic tagged with the rule])']
 
-KERNELS = [k1, k3]
+# ---------------------------------------------------------------------------------------------- K4 subrange limits: numeric rule on symbolic bounds
+def _k4_job(job):
+    tname, = job
+    from . import C10 as K10
+    ctx = _CTX; part = Part()
+    text = {'subrange_type': 'TYPE\n  r : INT(1..10);\nEND_TYPE\n', 'array_dimension': 'TYPE\n  ar : ARRAY[1..10] OF INT;\nEND_TYPE\n',
+            'subrange_variable': 'FUNCTION_BLOCK fb\nVAR\n  v : INT(1..10);\nEND_VAR\nEND_FUNCTION_BLOCK\n'}[tname]
+    P = ctx.program()
+    lib0 = resolve_concrete(ctx, text)
+    key = P.find_fn('ironplc-analyzer', 'rule_decl_subrange_limits::apply')
+    # the text of the limits inside the diagnostic's context is not the subject: formatting a symbolic number forks per digit count
+    M = Machine(P, max_steps=50_000_000, stubs={r'SignedInteger as std::string::ToString>::to_string$': lambda M_, fr, c, a: Str('<limit>')}); st = {}
+    def entry(M):
+        lib = deep_clone(lib0)
+        subs = K10.find_nodes(lib, 'Subrange')
+        if len(subs) != 1: raise Unsupported('%d Subrange nodes in the template' % len(subs))
+        sr = subs[0]; vals = []
+        for k in (0, 1):
+            si = sr.f[k]                                  # SignedInteger { value: Integer { span, value }, is_neg }
+            mag = M.fresh_bv('mag%d' % k, 128); M.assume(z3.ULT(mag, 1 << 40)); neg = M.fresh_bool('neg%d' % k)
+            si.f[0].f[1] = mag; si.f[1] = neg; vals.append((mag, neg))
+        st['vals'] = vals
+        return M.call_fn(key, [Ref(Cell(lib))])
+    def on_path(M, pr):
+        part.paths += 1
+        if pr.inconclusive: part.inconc(pr.inconclusive); return
+        part.nontrivial += 1
+        s = z3.Solver(); s.add(*pr.pc)
+        (m0, n0), (m1, n1) = st['vals']
+        lo = z3.If(n0, -z3.ZeroExt(8, m0), z3.ZeroExt(8, m0)); hi = z3.If(n1, -z3.ZeroExt(8, m1), z3.ZeroExt(8, m1))
+        want_err = lo >= hi                                # signed comparison on 136 bits: no wrap
+        def lit(m): return '%s%d..%s%d' % ('-' if z3.is_true(m.eval(n0, True)) else '', m.eval(m0, True).as_long(), '-' if z3.is_true(m.eval(n1, True)) else '', m.eval(m1, True).as_long())
+        def report(role, what, cond):
+            s.push(); s.add(cond); part.queries += 1
+            if s.check() == z3.sat:
+                L = lit(s.model()); src = text.replace('1..10', L)
+                part.add(role, 'subrange %s: %s' % (L, what), {'limits': L, 'source': src}, ('subrange', (src, bool(z3.is_true(s.model().eval(want_err, True))))))
+            s.pop()
+        if pr.panic: report('C02/K4/%s/panic' % tname, 'the rule panics: ' + pr.panic.msg[:50], z3.BoolVal(True)); return
+        got_err = pr.result.disc == 1
+        report('C02/K4/%s/%s' % (tname, 'spurious' if got_err else 'missed'), 'the rule %s, minimum < maximum is %s' % ('reports P0004' if got_err else 'accepts it', 'true' if got_err else 'false'), want_err != z3.BoolVal(got_err))
+        if len(part.validate) < 1 and s.check() == z3.sat:
+            mdl = s.model(); part.validate.append(('subrange', (text.replace('1..10', lit(mdl)), bool(z3.is_true(mdl.eval(want_err, True))))))
+        if len(part.samples) < 1: part.samples.append({'template': tname, 'reported': got_err})
+    M.explore(entry, on_path)
+    part.queries += M.stats['smt']; part.encoded = set(M.encoded); part.models = set(M.models_used)
+    return part
+
+@replay_factory('subrange')
+def _replay_subrange(src, want_err):
+    def rp(ctx):
+        r = ctx.replay({'cmd': 'analyze', 'sources': [src]})
+        if 'panic' in r: return True, r
+        if 'parse_error' in r: return None, r
+        codes = [d['code'] for d in r.get('diagnostics', [])]
+        return ('P0004' in codes) != want_err, {'source': src, 'codes': codes, 'minimum_not_below_maximum': want_err}
+    return rp
+
+@kernel('K4 rules.subrange_limits')
+def k4(ctx, kr):
+    global _CTX
+    _CTX = ctx
+    kr.bounds = 'subrange of a type declaration and an array dimension with both limits symbolic (sign symbolic, magnitude < 2^40): P0004 iff minimum >= maximum as signed numbers'
+    for part in par_map(_k4_job, [('subrange_type',), ('array_dimension',)]): merge_part(kr, part)
+    P = ctx.program()
+    kr.functions = fn_paths(P, getattr(kr, '_enc', set()))
+    kr.exhaustive = True
+    kr.outside = ['magnitudes >= 2^40 (the i128 conversion limit is a C04 matter)']
+
+KERNELS = [k1, k4, k3]
